@@ -1,5 +1,5 @@
 """C08: results are independent of sieve size, threads, CPU dispatch and cache topology."""
-import os, shutil, concurrent.futures
+import os, re, shutil, concurrent.futures
 import ps, oracle, iterlib, countlib, C04
 
 LEVEL = "proof"
@@ -107,6 +107,27 @@ def correspond(ctx):
             mismatches.append({"key": "config-dependent", "what": "count kind %d of [%d, %d] with sieve size %d KiB, %d threads, build %s: %s, expected %s" % (k, w[0], w[1], kb, th, v, o.strip(), want),
                                "failing_input": {"kind": k, "start": w[0], "stop": w[1], "sieve_size": kb, "threads": th, "variant": v, "observed": o.strip(), "expected": want}})
     dist["config_runs"] = len(jobs)
+    # 2b. printed output: the command line prints the same lines for every thread count, sieve size and dispatch build, on
+    # intervals long enough (>= 2e7) to be split among threads (the reference is the single-threaded default-size run of
+    # the default build; C15 compares that run with the specification)
+    def plines(out):
+        return [l for l in out.replace("\r", "\n").split("\n") if l.strip() and not re.match(r"^(Sieve size =|Threads =|Seconds:|\d+%$)", l.strip())]
+    pbase = [["4e7", "-p"], ["1e10", "1e10+3e7", "-p2"]] + ([["1e12", "-d", "6e7", "-p3"], ["2e8", "-p"]] if ctx.thorough else [])
+    dist["printed_runs"] = 0
+    for base in pbase:
+        rc0, o0, e0 = ps.run([ps.cli_path("default")] + base + ["-t1"], timeout=600)
+        ref = plines(o0)
+        for v, extra in (("default", ["-t2"]), ("default", ["-t4", "-s16"]), ("default", ["--threads=16", "-s", "100"]), ("default", ["-t3", "-s8192"]),
+                         ("portable", ["-t1"]), ("portable", ["-t5", "-s", "23"])):
+            rc1, o1, e1 = ps.run([ps.cli_path(v)] + base + extra, timeout=600)
+            got = plines(o1)
+            ev += 1; dist["printed_runs"] += 1
+            sigs.add(("printed", base[-1], v, tuple(extra)))
+            if rc0 != 0 or rc1 != rc0 or got != ref:
+                j = next((i for i in range(min(len(got), len(ref))) if got[i] != ref[i]), min(len(got), len(ref)))
+                mismatches.append({"key": "config-print", "what": "primesieve %s (build %s) prints something else than the single-threaded run (first difference at line %d: %r vs %r; %d vs %d lines)" %
+                                   (" ".join(base + extra), v, j, got[j:j + 1], ref[j:j + 1], len(got), len(ref)),
+                                   "failing_input": {"argv": base + extra, "variant": v, "reference_argv": base + ["-t1"], "first_difference_line": j, "observed": got[j:j + 2], "expected": ref[j:j + 2]}})
     # iterator sequences on both builds
     hists = [("cpp" if i % 2 else "c", ["SS %d" % rng.choice(sizes)] + iterlib.gen_history(rng, "cpp", maxlen=25, hi_frac=(85, 15, 0, 0))) for i in range(40)]
     for v in ("default", "portable"):
@@ -153,7 +174,7 @@ def correspond(ctx):
         if rc != 0 or len(t) < 10 or (lo is not None and not (lo <= int(t[7]) <= hi)) or not (1 <= int(t[8]) <= int(t[9])) or t[10:] != ref_t[10:]:
             mismatches.append({"key": "clamp", "what": "set_sieve_size/set_num_threads %s: %s" % (args, o.strip()), "failing_input": {"args": args, "observed": o.strip()}})
     return {"evaluations": ev, "distinct_nontrivial": len(sigs),
-            "rule": "Erat::init geometry for %d sieve sizes (all 16..8192 in the thorough tier) x random intervals up to 2^64-1: model vs implementation + admissibility; one workload set counted with every sieve size, 1..16 threads, both dispatch builds vs the oracle; iterator histories on both builds; %d synthetic sysfs trees (missing, zero, huge, garbage, overflow, hybrid, map/list sharing, 2^20+1 threads) through hook H2: start-up, clamp, model of get_sieve_size, unchanged results; out-of-range settings through the API" % (len(sizes), len(trees(rng))),
+            "rule": "Erat::init geometry for %d sieve sizes (all 16..8192 in the thorough tier) x random intervals up to 2^64-1: model vs implementation + admissibility; one workload set counted with every sieve size, 1..16 threads, both dispatch builds vs the oracle; printed output (-p, -p2) of long intervals with 6 thread/size/build settings vs the single-threaded run; iterator histories on both builds; %d synthetic sysfs trees (missing, zero, huge, garbage, overflow, hybrid, map/list sharing, 2^20+1 threads) through hook H2: start-up, clamp, model of get_sieve_size, unchanged results; out-of-range settings through the API" % (len(sizes), len(trees(rng))),
             "samples": samples, "mismatches": sorted(mismatches, key=lambda m: 0 if m.get("failing_input") else 1)[:20], "distribution": dist, "variants": ["default", "portable"]}
 
 
